@@ -44,6 +44,7 @@ namespace
             // cfg[4] (wait queues, half of the runs): delegate waiters are in use; bit t+1: thread t's delegate passes the baton on
             bool delegates = prog == P_WAIT && r.chance(1, 2);
             p.cfg = {nt, mode, memk, prog == P_QUEUE && r.chance(1, 3) ? (int64_t)r.range(1, 5) : 0, delegates ? (int64_t)(1 + 2 * r.below(16)) : 0};
+            p.cfg.push_back(delegates ? (int64_t)r.below(16) : 0); // cfg[5] bit t: thread t's delegate (unless it is a baton one) parks itself again, at the front, from inside its handler - once per park
             // schedule
             Op s = {OP_SCHED};
             if (mode == 0)
@@ -158,9 +159,9 @@ namespace
         bool finished[thr::MAXT];
         // delegate waiters (model entries 100 + id): selected-but-not-yet-run count, the future each must see, baton kind
         void *dlg[thr::MAXT];
-        int dlg_sel[thr::MAXT], dlg_kind[thr::MAXT];
-        long dlg_expect[thr::MAXT];
-        uint64_t dlg_wakes = 0, dlg_batons = 0, dlg_refresh = 0, dlg_rearmed = 0, dlg_died_parked = 0;
+        int dlg_sel[thr::MAXT], dlg_kind[thr::MAXT], dlg_repark[thr::MAXT];
+        std::deque<long> dlg_expect[thr::MAXT]; // the futures of the wakes that selected the delegate and whose handler call is still to come, oldest first
+        uint64_t dlg_wakes = 0, dlg_batons = 0, dlg_refresh = 0, dlg_rearmed = 0, dlg_died_parked = 0, dlg_reparked_from_handler = 0;
         long next_u = 1000;
         uint64_t wakes_with_victim = 0, wake_raced = 0;
         // P_QUEUE
@@ -180,10 +181,13 @@ namespace
             {
                 int id = v - 100;
                 dlg_sel[id]++;
-                dlg_expect[id] = u;
+                dlg_expect[id].push_back(u);
                 dlg_wakes++;
                 // a baton delegate's handler wakes the next waiter of the same queue before the waker goes on
                 if (dlg_kind[id] == 1 && !mq.empty()) { dlg_batons++; take(mq, 500000 + id); }
+                // a handler that parks its waiter again at the front of the same queue (once per park): an unwait_all in progress
+                // reaches it a second time, an unwait_one leaves it at the front
+                if (dlg_kind[id] == 2 && dlg_repark[id] > 0) { dlg_repark[id]--; mq.push_front(v); dlg_reparked_from_handler++; }
                 return;
             }
             woken[v] = true;
@@ -246,13 +250,15 @@ namespace
         }
         heads[0] = prog == P_WAIT ? prog_head_new() : nullptr;
         heads[1] = prog == P_WAIT ? prog_head_new() : nullptr;
-        dlg_wakes = dlg_batons = dlg_refresh = dlg_rearmed = dlg_died_parked = 0;
+        dlg_wakes = dlg_batons = dlg_refresh = dlg_rearmed = dlg_died_parked = dlg_reparked_from_handler = 0;
         const bool delegates = prog == P_WAIT && mod(p.c(4, 0), 2) == 1;
         for (int i = 0; i < thr::MAXT; i++)
         {
             dlg_sel[i] = 0;
-            dlg_expect[i] = 0;
+            dlg_expect[i].clear();
             dlg_kind[i] = (int)(mod(p.c(4, 0), 64) >> (i + 1)) & 1;
+            if (dlg_kind[i] == 0 && ((mod(p.c(5, 0), 16) >> i) & 1)) dlg_kind[i] = 2;
+            dlg_repark[i] = 0;
             dlg[i] = delegates && i < nt ? prog_delegate_new(i, dlg_kind[i]) : nullptr;
         }
         preload = prog == P_QUEUE ? (int)mod(p.c(3), 6) : 0;
@@ -459,6 +465,7 @@ namespace
         if (dlg_refresh) probe("delegate_refreshed_its_place", dlg_refresh);
         if (dlg_rearmed) probe("delegate_woken_through_a_handler_set_while_parked", dlg_rearmed);
         if (dlg_died_parked) probe("delegate_waiter_destroyed_while_parked", dlg_died_parked);
+        if (dlg_reparked_from_handler) probe("delegate_parked_itself_again_from_its_handler", dlg_reparked_from_handler);
         if (heads[0] && !rr.violation) { prog_head_delete(heads[0]); prog_head_delete(heads[1]); }
         if (q && !rr.violation) prog_queue_delete(q);
         heads[0] = heads[1] = q = nullptr;
@@ -587,6 +594,7 @@ extern "C"
                 }
         if (prio) W->mqs[hq].push_front(100 + id);
         else W->mqs[hq].push_back(100 + id);
+        W->dlg_repark[id] = W->dlg_kind[id] == 2 ? 1 : 0;
         thr::note("model-enqueue delegate %d prio=%d queue=%d", id, prio, hq);
     }
     void h_delegate_handler(int id, int which, int expected)
@@ -613,7 +621,9 @@ extern "C"
         if (id < 0 || id >= thr::MAXT || W->dlg_sel[id] <= 0)
             fail("C20/delegate-woken-unselected", "the handler of delegate waiter %d ran although no wake selected it (woken twice, or woken while not parked); future=%ld", id, fut);
         W->dlg_sel[id]--;
-        if (fut != W->dlg_expect[id]) fail("C20/wrong-future", "delegate waiter %d was woken with future %ld, the wake that selected it carried %ld", id, fut, W->dlg_expect[id]);
+        long want = W->dlg_expect[id].empty() ? -1 : W->dlg_expect[id].front();
+        if (!W->dlg_expect[id].empty()) W->dlg_expect[id].pop_front();
+        if (fut != want) fail("C20/wrong-future", "delegate waiter %d was woken with future %ld, the wake that selected it carried %ld", id, fut, want);
     }
     void h_wake_end(void)
     {
